@@ -38,10 +38,12 @@ def ecdsaSign (xr : G → F) (g : G) (d k e : F) : F × F :=
   let r := xr (k • g)
   (r, k⁻¹ * (e + r * d))
 
-/-- public-key recovery `r⁻¹ • (s•R − e•g)` where `R = lift r v` is the point whose x-coordinate is
-(`r`, or `r + n` when bit 1 of `v` is set) with the y-parity given by bit 0 of `v` -/
+/-- public-key recovery `r⁻¹ • (s•R − e•g) = (r⁻¹ s)•R − (r⁻¹ e)•g` where `R = lift r v` is the point
+whose x-coordinate is (`r`, or `r + n` when bit 1 of `v` is set) with the y-parity given by bit 0 of `v`.
+Written with two scalar multiplications (the library computes `(s•R − z•G)•r⁻¹`; in a module over the
+scalar field the two coincide, `Props.C15.ecdsaRecover_eq`) -/
 def ecdsaRecover (lift : F → Nat → Option G) (g : G) (e r s : F) (v : Nat) : Option G :=
-  (lift r v).map fun R => r⁻¹ • (s • R + -(e • g))
+  (lift r v).map fun R => (r⁻¹ * s) • R + -((r⁻¹ * e) • g)
 
 /-- `Signature.Normalise`: low-S form, recovery bit flipped when `s` is negated -/
 def ecdsaNormalise (low : F → Bool) (sig : F × F × Option Nat) : F × F × Option Nat :=
